@@ -143,9 +143,10 @@ MaxLines(batch) == IF batch = <<>> THEN 0 ELSE Max({Len(batch[i].lines) : i \in 
 AllocViolNext(s, e) ==
   IF e.alloc <= 0 \/ e.res.k # "rec" \/ e.grow # <<>> THEN {}
   ELSE IF Len(e.res.lines) + 1 > s.hwL THEN {} ELSE {<<"C18", "next_allocated_in_steady_state">>}
-\* nxl: line count (+1) of the record after the batch, which the reader has already begun to scan
-AllocViolSet(s, e, batch, nxl) ==
-  IF e.alloc <= 0 \/ e.res.k # "ok" \/ e.grow # <<>> THEN {}
+\* nxl: line count (+1) of the record after the batch, which the reader may already have begun to scan;
+\* nxerr: an invalid record follows the batch (its error value is built, then reported by the next call)
+AllocViolSet(s, e, batch, nxl, nxerr) ==
+  IF e.alloc <= 0 \/ e.res.k # "ok" \/ e.grow # <<>> \/ nxerr THEN {}
   ELSE LET t == e.slot
            hw == s.hwS[t]
            newhw == \/ Len(batch) > Len(hw)
@@ -239,9 +240,9 @@ JudgeSet(fmt, chain, s, e) ==
          IN [viol |-> (IF allok THEN {} ELSE {<<"C04", "batch_content">>} \cup fabset)
                       \cup (IF allok /\ ~exactok THEN {<<"C04", "exact_count">>} ELSE {})
                       \cup (IF posbad THEN {<<"C05", "position_after_record_set">>} ELSE {})
-                      \cup others \cup AllocViolSet(s, e, batch, nxl),
+                      \cup others \cup AllocViolSet(s, e, batch, nxl, allok /\ s.cur + kk <= N /\ nx.errs # {}),
              s |-> IF allok THEN [keep EXCEPT !.cur = @ + kk, !.hwS = HwAfterSet(s, e, batch),
-                                             !.hwL = Max({@, MaxLines(batch) + 1, nxl}), !.nread = @ + kk]
+                                             !.hwL = Max({@, MaxLines(batch) + 1}), !.nread = @ + kk]
                    ELSE [s EXCEPT !.mode = "lost"]]
     [] s.mode \in {"stream", "ended", "failed"} /\ r.k = "none" ->
          LET endok == s.mode # "stream" \/ el.okEnd
